@@ -14,8 +14,8 @@ META = {
     "id": "C02",
     "engine": "meta",
     "design_ref": "5/C02",
-    "coq_targets": ["Props/Properties_C02.vo", "Meta/Check.vo"],
-    "coq_files": ["Gen/MetaConsts.v", "Meta/SMap.v", "Meta/Model.v", "Meta/Spec.v", "Meta/Check.v", "Meta/SMapProofs.v",
+    "coq_targets": ["Props/Properties_C02.vo", "Meta/Check.vo", "Meta/CheckFast.vo"],
+    "coq_files": ["Gen/MetaConsts.v", "Meta/SMap.v", "Meta/Model.v", "Meta/Spec.v", "Meta/Check.v", "Meta/CheckFast.v", "Meta/SMapProofs.v",
                   "Meta/StatusProofs.v", "Meta/WfProofs.v", "Meta/CounterProofs.v", "Meta/TypedProofs.v", "Props/Properties_C02.v"],
     "theorems": ["C02_typed_counters_exact_partial", "C02_counters_refuted_put_on_marked_id", "C02_counters_refuted_tombstone_target",
                  "C02_counters_refuted_tombstone_unstored", "C02_counters_refuted_mark_unstored", "C02_counters_refuted_relations"],
